@@ -157,7 +157,7 @@ def replay_window(p):
         kind, to_none, stop_none = 2, False, False
     else:
         kind, total, frm, to, to_none, start, stop, stop_none = a_[:8]
-    total = min(total, 400)
+    total = min(total, 20000)             # large enough for block-wise readers; the file-level part only up to 2000 rows
     frm, to = min(frm, total - 1), min(to, total)
     if to <= frm:
         to = frm + 1
@@ -186,7 +186,7 @@ def replay_window(p):
     finally:
         if cleanup:
             os.remove(cleanup)
-    if bad:
+    if bad or total > 2000:
         return _res(bad, argmap=argmap)
     # file level: the same window through DLISFile.write
     try:
